@@ -273,7 +273,7 @@ func c13Channel(seq bool) {
 	}
 	closerAt := simrt.DrawRange(0, 20)
 	closerStall := simrt.DrawRange(0, 40)
-	nClients := simrt.DrawRange(1, 3)
+	nClients := simrt.DrawRange(1, 3+simrt.Scale()-1)
 	minOps, maxOps := 2, 12
 	if seq {
 		closer, nClients, minOps, maxOps = 0, 1, 10, 30
